@@ -372,7 +372,11 @@ class NativeState:
 
         def fork_base(off: Any) -> Any:
             wa = wa_of(off)
-            if E.branch(self.valid(bv(wa, 64))):
+            live = self.valid(bv(wa, 64))
+            if self.flat is not None:
+                # hybrid: in-segment words below the flat window live in the flat array; their page copy is stale (arbitrary)
+                live = z3.And(live, z3.UGE(bv(wa, 64), self.FC))
+            if E.branch(live):
                 return simp(z3.ZeroExt(64 - w, z3.Select(self.MA, bv(wa, 64))) if w < 64 else z3.Select(self.MA, bv(wa, 64)))
             return simp(z3.Select(self.JUNK, bv(wa, 64)))
         words = M.alloc(PAGE_WORDS * 8, 'heap', f'page_words{len(self.pages)}')
